@@ -43,6 +43,18 @@ int main() {
       printf("a fixed rectangle with nothing overlapping it (%d other rectangle(s), thirdPass=%d) moved from (100,45) to (%g,%g)\n", others, third, frs[0]->getCentreX(), frs[0]->getCentreY()); bad++; }
     for (size_t k = 0; k < frs.size(); ++k) delete frs[k];
   }
+  // a caller-set border: a fixed rectangle that nothing pushes stays put also when Rectangle::xBorder / yBorder are not zero
+  for (int third = 0; third < 2; ++third) {
+    Rectangle::setXBorder(0.5); Rectangle::setYBorder(0.25);
+    Rectangles bs; bs.push_back(new Rectangle(0, 4, 0, 4)); bs.push_back(new Rectangle(20, 24, 0, 4)); bs.push_back(new Rectangle(0, 4, 20, 24));
+    std::set<unsigned> bf; bf.insert(0); bf.insert(1);
+    double x0 = (bs[0]->getMinX() + bs[0]->getMaxX()) / 2, x1 = (bs[1]->getMinX() + bs[1]->getMaxX()) / 2;
+    removeoverlaps(bs, bf, third != 0);
+    double m0 = (bs[0]->getMinX() + bs[0]->getMaxX()) / 2 - x0, m1 = (bs[1]->getMinX() + bs[1]->getMaxX()) / 2 - x1;
+    if (std::fabs(m0) > 0.04 || std::fabs(m1) > 0.04) { printf("border 0.5: fixed rectangles with nothing overlapping them moved in x by %g and %g (thirdPass=%d)\n", m0, m1, third); bad++; }
+    Rectangle::setXBorder(0); Rectangle::setYBorder(0);
+    for (size_t k = 0; k < bs.size(); ++k) delete bs[k];
+  }
   // two fixed rectangles that the first (satisfy) phase merges into one block with the free ones: the refinement must separate the block
   // again and its result must be what comes back (fixed rectangles move by less than 1% of the average size)
   for (int third = 0; third < 2; ++third) {
